@@ -304,6 +304,9 @@ func (e *Env) Dump() []string {
 	// balances
 	balances := func(name string, addr sdk.AccAddress, base sdk.Coins) {
 		for i, d := range Denoms {
+			if e.appMode && d == "stake" {
+				continue // moved by the simapp's mint / distribution / fee machinery: not shown
+			}
 			amt := e.app.BankKeeper.GetBalance(ctx, addr, d).Amount
 			if base != nil {
 				amt = amt.Sub(base.AmountOf(d))
@@ -321,7 +324,9 @@ func (e *Env) Dump() []string {
 		balances(fmt.Sprintf("P%d", a), types.PayingReserveAddress(a), nil)
 		balances(fmt.Sprintf("V%d", a), types.VestingReserveAddress(a), nil)
 	}
-	balances("pool", e.poolAddr, e.poolBase)
+	if !e.appMode {
+		balances("pool", e.poolAddr, e.poolBase)
+	}
 
 	return out
 }
